@@ -159,6 +159,12 @@ impl Report {
 
     pub fn write(&self, path: &str) {
         std::fs::write(path, self.to_json().render()).expect("write report");
+        // raw hashes of the distinct non-trivial cases, merged exactly by the orchestrator
+        let mut raw = Vec::with_capacity(self.distinct.len() * 8);
+        for h in &self.distinct {
+            raw.extend_from_slice(&h.to_le_bytes())
+        }
+        std::fs::write(format!("{}.hashes", path), raw).expect("write hashes");
     }
 }
 
@@ -238,4 +244,21 @@ impl Args {
     pub fn mine(&self, i: u64) -> bool {
         i % self.nshards == self.shard
     }
+}
+
+/// Exact size of the union of the hash files written by the workers.
+pub fn merge_hash_files(paths: &[String]) -> u64 {
+    let mut all: Vec<u64> = Vec::new();
+    for p in paths {
+        if let Ok(b) = std::fs::read(p) {
+            for c in b.chunks_exact(8) {
+                let mut a = [0u8; 8];
+                a.copy_from_slice(c);
+                all.push(u64::from_le_bytes(a))
+            }
+        }
+    }
+    all.sort_unstable();
+    all.dedup();
+    all.len() as u64
 }
